@@ -19,9 +19,10 @@ import verus_run
 from props import PROPS, UNITS, ASSUMPTIONS
 
 REPO = os.environ.get('VERIF_REPO', '/repo')
-GEN = os.path.join(VERIF, 'gen')
-EVID = os.path.join(VERIF, 'evidence')
-REPLAYS = os.path.join(VERIF, 'replays')
+OUT = os.environ.get('VERIF_OUT', VERIF)   # (dev: a second tree can be checked side by side, e.g. tools/run_seeds.sh)
+GEN = os.path.join(OUT, 'gen')
+EVID = os.path.join(OUT, 'evidence')
+REPLAYS = os.path.join(OUT, 'replays')
 SCRATCH = os.environ.get('VERIF_SCRATCH', '/var/tmp/walrus-verif-scratch')
 
 
